@@ -162,7 +162,25 @@ CHECKS["C20"] = dict(
         "Trace_Zemax validates the repository's .zmx files and random decimal texts. Calibration every run.",
    technique="TLA+ line-dispatch machine + TLC exhaustive MC; spec->code replay of generated files in two encodings; code->spec trace validation",
    ref="6 (C20)")
-NOT_YET = "check not built yet in this session (see DESIGN.md section 6 for the plan)"
+CHECKS["C03"] = dict(
+   text="spec/Launch.tla states (a) the accept/reject decision table over aperture type x field type x object distance x telecentric flag as a state "
+        "machine - MC_Launch checks totality and determinism over all 24 cells and the table is replayed into the code (ValueError exactly where it says "
+        "Reject) - (b) the launch relations cross-multiplied on dyadic numbers (origin on the object, field angle with a validated tan certificate, aim at "
+        "(Px,Py) EPD/2 on the entrance pupil plane, telecentric chief/rim clauses, unit direction, intensity 1, zero path, wavelength, forward), and "
+        "(c) the documented point counts of the named pupil samplings (integer formulas checked by TLC against exact counts), points inside the unit "
+        "disk, vignetting only shrinks. Trace_Launch validates recorded launches of random lenses over every accepted cell, every sampling and several "
+        "ray counts; calibration with 200+ corruptions per run.",
+   technique="TLA+ decision-table machine + TLC MC; spec->code replay of the table; code->spec trace validation of launch records (dyadic)",
+   ref="6 (C03)")
+CHECKS["C05"] = dict(
+   text="spec/Limit.tla states the quadratic-decay predicate on geometric eps-sequences (decay ratio <= 5/16 above an explicit rounding floor, end bound, "
+        "at least four informative steps); MC_Limit (432 states) shows it accepts a eps^2 and a eps^2 + b eps^4 and rejects a eps, constant offset and "
+        "stalled sequences. Trace_Limit evaluates it on recorded real-ray families (marginal-type and chief-type, eps = 2^-4 .. 2^-12) at every surface "
+        "of random lenses and samples against the paraxial marginal/chief rays and Paraxial.trace, plus axial focus -> F2, image height per unit field, "
+        "zero-pupil ray -> stop centre. The limit is observed over 2.4 decades, not proved. Calibration every run.",
+   technique="TLA+ limit predicate + TLC MC on synthetic sequences; code->spec trace validation of recorded eps-families (dyadic)",
+   ref="6 (C05)")
+NOT_YET = "check being built (see DESIGN.md section 6 for the plan)"
 def main():
     props = [json.loads(l)["id"] for l in open(os.path.join(HERE, "properties.jsonl"))]
     checks = []
